@@ -1,4 +1,5 @@
 //@include prelude/header.rs
+//@include prelude/clitree_fmt_macro.rs
 // Unit cli_main: the CLI front end of src/main.rs, handle_fixtures_unused and handle_fixtures_list, under contract
 // (property C20 "CLI reports agree with the server").  A unit of its own because it composes with unit cli_unused,
 // whose database model (//@dbstruct, Arc stripped) differs from the one unit handlers_main needs (//@dbstruct_arc +
@@ -7,33 +8,56 @@
 //   (prelude/cli_main_shims.rs): every entry of get_unused_fixtures() is printed, with its path shown relative to the
 //   scanned root when it lies below it and unchanged otherwise (strip_prefix(root).unwrap_or(path)), in both output
 //   formats; the exit status is 1 iff the list is non-empty.
+// v3 (composed with unit cli_tree): handle_fixtures_list calls print_fixtures_tree through `//@stub cli_tree
+//   print_fixtures_tree`, i.e. against the contract PROVED for the real cli.rs function (list_post over the modelled stdout
+//   `out()`, prelude/clitree_out.rs).  Its preconditions (unique_at_line, total usages <= usize::MAX) are OBLIGATIONS at the
+//   call site, discharged from what the scanner stand-in is assumed to establish (scanned_ok).  What the command does is
+//   stated as list_cmd_post (below) and proved at the end of the real body; lemma_C20_list_command_* compose it with
+//   cli_tree's L2 (the output is a function of the index).
 verus! {
 global size_of usize == 8;  // A6: 64-bit target
 pub mod pre {
 use super::*;
 //@include prelude/path.rs
+//@include prelude/path_ext.rs
 //@include prelude/types.rs
 //@include prelude/dashmap.rs
 //@include prelude/hashset.rs
 //@include prelude/hashmap.rs
+//@include prelude/hashmap_ext.rs
 //@include prelude/option_ext.rs
 //@include prelude/atomic.rs
 //@include prelude/dbview.rs
 //@include prelude/hof.rs
+//@include prelude/iter_ext.rs
 //@include prelude/resolve_spec.rs
 //@include prelude/text.rs
 //@include prelude/refs_spec.rs
 //@include prelude/resolve_l2.rs
 //@include prelude/cli_spec.rs
-//@include prelude/path_ext.rs
+//@include prelude/cli_l2.rs
 //@include prelude/cli_main_shims.rs
+//@include prelude/cli_main_fmt.rs
 //@include prelude/cli_main_l2.rs
+// contract vocabulary of unit cli_tree (read-only; prelude/path_strip.rs is NOT included: its two assumed specifications,
+// Path::strip_prefix and Result::unwrap_or, are already stated by prelude/cli_main_shims.rs)
+//@include prelude/clitree_btree.rs
+//@include prelude/clitree_shims.rs
+//@include prelude/clitree_spec.rs
+//@include prelude/clitree_list_spec.rs
+//@include prelude/clitree_list_l1.rs
+//@include prelude/clitree_l2.rs
+//@include prelude/clitree_l2_order.rs
 } // mod pre
 use pre::*;
 
-//@dbstruct definitions file_cache usages usage_by_fixture
+// src/fixtures/mod.rs, taken from the source at generation time (as in unit cli_tree)
+//@item src/fixtures/mod.rs struct EditableInstall
+
+//@dbstruct definitions file_cache usages usage_by_fixture editable_install_roots workspace_root
 
 //@include prelude/db_specs.rs
+//@include prelude/clitree_out.rs
 
 broadcast use {axiom_pathbuf_ref_as_path2, vstd::std_specs::iter::map_postcondition};
 
@@ -58,12 +82,21 @@ impl FixtureDatabase {
         ensures scanned_ok(*final(self)), scanned_from(*final(self), pv(root_path))
     { unimplemented!() }
 //@stub cli_unused get_unused_fixtures
-    /// cli.rs print_fixtures_tree (not under contract): obligation = it runs on the database scanned from the canonical
-    /// root, with that root and the two flags of the command line, unchanged
-    #[verifier::external_body]
-    pub fn vp_print_tree(&self, Ghost(root): Ghost<PV>, Ghost(flags): Ghost<(bool, bool)>, root_path: &Path, skip_unused: bool, only_unused: bool)
-        requires scanned_from(*self, root), pv(root_path) == root, (skip_unused, only_unused) == flags
-    { }
+//@stub cli_tree print_fixtures_tree
+}
+
+/// what `fixtures list <path> [--skip-unused] [--only-unused]` does, as a relation between the database the scan left
+/// (db1) and the database value when the command returns (db2; `out()` is the modelled stdout, prelude/clitree_out.rs):
+/// db1 was scanned from the canonicalised absolute path; the index is untouched by the printing; and for every input li read
+/// off db1 FOR THAT ROOT AND THE TWO FLAGS AS GIVEN, what was appended to stdout is print_fixtures_tree's output (list_post,
+/// the contract proved in unit cli_tree)
+pub open spec fn list_cmd_post(path: PV, skip: bool, only: bool, db1: FixtureDatabase, db2: FixtureDatabase) -> bool {
+    let root = fs_canon(abs_pv(path));
+    &&& scanned_from(db1, root)
+    &&& scanned_ok(db1)
+    &&& same_index(db2, db1)
+    &&& forall|li: ListIn| list_inputs(li, db1.defs(), db1.uses(), db1.provf(), instvs(db1.editable_install_roots@),
+            opt_pbv(db1.workspace_root), root, skip, only) ==> #[trigger] list_post(db1.out(), db2.out(), li)
 }
 
 /*@ extract src/main.rs handle_fixtures_unused
@@ -71,21 +104,21 @@ impl FixtureDatabase {
 @replace 1 `use colored::Colorize;` => ``
 @wrapexpr 1 `if path.is_absolute() { path } else { std::env::current_dir() .unwrap_or_else(|_| PathBuf::from(".")) .join(&path) }` => `vp_absolute_u(path)` with fn vp_absolute_u(path: PathBuf) -> (r: PathBuf) ensures pbv(&r) == abs_pv(pbv(&path))
 @wrapexpr 1 `absolute_path.canonicalize().unwrap_or(absolute_path)` => `vp_canonical_u(absolute_path)` with fn vp_canonical_u(absolute_path: PathBuf) -> (r: PathBuf) ensures pbv(&r) == fs_canon(pbv(&absolute_path))
-@replace 1 `eprintln!("Error: Path does not exist: {}", absolute_path.display())` => `vp_eprint_missing(&absolute_path)`
-@replace 1 `eprintln!( "Error: Path is not a directory: {}", absolute_path.display() )` => `vp_eprint_not_dir(&absolute_path)`
+@replace 1 `eprintln!("Error: Path does not exist: {}", absolute_path.display())` => `vp_eprint_missing_f(&absolute_path)`
+@replace 1 `eprintln!( "Error: Path is not a directory: {}", absolute_path.display() )` => `vp_eprint_not_dir_f(&absolute_path)`
 @replace 1 `std::process::exit(` => `return vp_exit(Ghost(1int), Ghost(true), `
 @replace 2 `std::process::exit(` => `return vp_exit(Ghost(1int), Ghost(true), `
 @replace 3 `std::process::exit(` => `return vp_exit(Ghost(expected_exit(unused@)), Ghost(true), `
 @replace 4 `std::process::exit(` => `return vp_exit(Ghost(expected_exit(unused@)), Ghost(printed == expected_entries(unused@, root)), `
 @replace 1 `let fixture_db = FixtureDatabase::new();` => `let mut fixture_db = FixtureDatabase::new();`
-@replace 1 `println!("[]")` => `vp_print_json_empty()`
-@replace 1 `println!("{}", "No unused fixtures found.".green())` => `vp_print_none_found()`
+@replace 1 `println!("[]")` => `vp_print_json_empty_f(Ghost(wants_json(format@)))`
+@replace 1 `println!("{}", "No unused fixtures found.".green())` => `vp_print_none_found_f(Ghost(wants_json(format@)))`
 @rename to_string_lossy vp_to_string_lossy
 @closure map:1 |e: &(PathBuf, String)| -> (v: serde_json::Value) ensures serde_json::jv(v) == entry_of(*e, pbv(&canonical_path))
 @closurelet map:1 let file_path = &e.0; let fixture_name = &e.1;
 @replace 1 `serde_json::json!({ "file": relative_path, "fixture": fixture_name })` => `vp_json_entry(relative_path, fixture_name)`
-@replace 1 `println!("{}", serde_json::to_string_pretty(&json_output).unwrap())` => `vp_print_json(&json_output, Ghost(expected_entries(unused@, root)))`
-@replace 1 `println!( "{} {} unused fixture(s):\n", "Found".red().bold(), unused.len() )` => `vp_print_header(unused.len(), Ghost(unused@.len()))`
+@replace 1 `println!("{}", serde_json::to_string_pretty(&json_output).unwrap())` => `vp_print_json_f(&json_output, Ghost(expected_entries(unused@, root)), Ghost(wants_json(format@)))`
+@replace 1 `println!( "{} {} unused fixture(s):\n", "Found".red().bold(), unused.len() )` => `vp_print_header_f(unused.len(), Ghost(unused@.len()), Ghost(wants_json(format@)))`
 @replace 1 `println!( "  {} {} in {}", "•".red(), fixture_name.yellow(), relative_path.dimmed() )` => `vp_print_entry(fixture_name, &relative_path, Ghost(entry_of(unused@[i - 1], root)))`
 @replace 1 `println!( "\n{}", "Tip: Remove unused fixtures or add tests that use them.".dimmed() )` => `vp_print_tip()`
 @after canonical_path 1
@@ -119,14 +152,120 @@ impl FixtureDatabase {
 @tags C20 C11
 @wrapexpr 1 `if path.is_absolute() { path } else { std::env::current_dir() .unwrap_or_else(|_| PathBuf::from(".")) .join(&path) }` => `vp_absolute_l(path)` with fn vp_absolute_l(path: PathBuf) -> (r: PathBuf) ensures pbv(&r) == abs_pv(pbv(&path))
 @wrapexpr 1 `absolute_path.canonicalize().unwrap_or(absolute_path)` => `vp_canonical_l(absolute_path)` with fn vp_canonical_l(absolute_path: PathBuf) -> (r: PathBuf) ensures pbv(&r) == fs_canon(pbv(&absolute_path))
+@replace 1 `eprintln!("Error: Path does not exist: {}", absolute_path.display())` => `vp_eprint_missing_f(&absolute_path)`
+@replace 1 `eprintln!( "Error: Path is not a directory: {}", absolute_path.display() )` => `vp_eprint_not_dir_f(&absolute_path)`
+@replace 1 `std::process::exit(` => `return vp_exit(Ghost(1int), Ghost(true), `
+@replace 2 `std::process::exit(` => `return vp_exit(Ghost(1int), Ghost(true), `
+@replace 1 `let fixture_db = FixtureDatabase::new();` => `let mut fixture_db = FixtureDatabase::new();`
+@start
+    let ghost g_path = pbv(&path);
+    let ghost mut db1: Option<FixtureDatabase> = None;
+@after scan_workspace 1
+    proof { db1 = Some(fixture_db); }
+@end
+    proof { assert(db1 is Some && list_cmd_post(g_path, skip_unused, only_unused, db1->0, fixture_db)); }
+@*/
+
+// ---- L2 (C20) for `fixtures list`: list_cmd_post composed with unit cli_tree's L2 -------------------------------------
+//@tags C20
+/// C20 — what `fixtures list` prints IS the output of print_fixtures_tree (the contract proved in unit cli_tree) on the
+/// database scanned from the canonicalised absolute path, for that root and for (skip_unused, only_unused) exactly as given
+/// on the command line: the input li the output is computed from carries that root and those flags; the events appended to
+/// stdout are op_list_out(li, ..) for some valid enumeration orders of the two hash tables (list_post); and - composed with
+/// cli_tree's lemma_C20_list_output_is_a_function_of_the_index - they are the ONLY event sequence print_fixtures_tree can
+/// append on that database: the output is determined by (scanned index, root, flags)
+pub proof fn lemma_C20_list_command_prints_the_tree(path: PV, skip: bool, only: bool, db1: FixtureDatabase, db2: FixtureDatabase, li: ListIn)
+    requires list_cmd_post(path, skip, only, db1, db2),
+        list_inputs(li, db1.defs(), db1.uses(), db1.provf(), instvs(db1.editable_install_roots@), opt_pbv(db1.workspace_root),
+            fs_canon(abs_pv(path)), skip, only),
+    ensures
+        scanned_from(db1, fs_canon(abs_pv(path))),
+        li.root == fs_canon(abs_pv(path)) && li.skip == skip && li.only == only,
+        counts_post(li.cm0, db1.defs(), db1.uses(), db1.provf()),
+        list_post(db1.out(), db2.out(), li),
+        exists|kss: Seq<Seq<CKey>>, akss: Seq<Seq<CKey>>| db2.out() == db1.out() + #[trigger] op_list_out(li, op_cm(li, kss), op_au(li, akss)),
+        forall|o2: Seq<Ev>| #[trigger] list_post(db1.out(), o2, li) ==> o2 == db2.out(),
+        db2.out().len() >= db1.out().len() + 2,
+        db2.out()[db1.out().len() as int] == (Ev::Header { root: fs_canon(abs_pv(path)) }),
+        same_index(db2, db1),
+{
+    assert(list_post(db1.out(), db2.out(), li));
+    assert forall|o2: Seq<Ev>| #[trigger] list_post(db1.out(), o2, li) implies o2 == db2.out() by {
+        lemma_C20_list_output_is_a_function_of_the_index(db1.out(), db2.out(), o2, li);
+    }
+    let (kss, akss) = choose|kss: Seq<Seq<CKey>>, akss: Seq<Seq<CKey>>|
+        valid_orders(kss, li.cm0.dom(), op_rv(li).len() as int) && valid_orders(akss, li.au0, op_rv(li).len() as int)
+        && db2.out() == db1.out() + #[trigger] op_list_out(li, op_cm(li, kss), op_au(li, akss));
+    let app = op_list_out(li, op_cm(li, kss), op_au(li, akss));
+    assert(app.len() >= 2 && app[0] == (Ev::Header { root: li.root }));
+}
+//@tags C20
+/// C20 "repeated runs print identical output", at the level of the command: two runs of `fixtures list` with the same
+/// command line whose scans left the same index views (and that start from the same stdout) print the same events
+pub proof fn lemma_C20_list_command_deterministic(path: PV, skip: bool, only: bool, a1: FixtureDatabase, a2: FixtureDatabase,
+        b1: FixtureDatabase, b2: FixtureDatabase, li: ListIn)
+    requires list_cmd_post(path, skip, only, a1, a2), list_cmd_post(path, skip, only, b1, b2),
+        a1.out() == b1.out(),
+        list_inputs(li, a1.defs(), a1.uses(), a1.provf(), instvs(a1.editable_install_roots@), opt_pbv(a1.workspace_root), fs_canon(abs_pv(path)), skip, only),
+        list_inputs(li, b1.defs(), b1.uses(), b1.provf(), instvs(b1.editable_install_roots@), opt_pbv(b1.workspace_root), fs_canon(abs_pv(path)), skip, only),
+    ensures a2.out() == b2.out(),
+{
+    assert(list_post(a1.out(), a2.out(), li));
+    assert(list_post(b1.out(), b2.out(), li));
+    lemma_C20_list_output_is_a_function_of_the_index(a1.out(), a2.out(), b2.out(), li);
+}
+// ---- vacuity guards for the composition: each must FAIL
+/// "the flags may be handed over swapped"
+proof fn canary_list_cmd_flags_swapped(path: PV, skip: bool, only: bool, db1: FixtureDatabase, db2: FixtureDatabase)
+    requires list_cmd_post(path, skip, only, db1, db2)
+    ensures list_cmd_post(path, only, skip, db1, db2)
+{}
+/// "the tree is printed for the path as typed, not for the canonical root"
+proof fn canary_list_cmd_root_is_path_as_given(path: PV, skip: bool, only: bool, db1: FixtureDatabase, db2: FixtureDatabase, li: ListIn)
+    requires list_cmd_post(path, skip, only, db1, db2),
+        list_inputs(li, db1.defs(), db1.uses(), db1.provf(), instvs(db1.editable_install_roots@), opt_pbv(db1.workspace_root), path, skip, only),
+    ensures list_post(db1.out(), db2.out(), li)
+{}
+/// "the command prints nothing"
+proof fn canary_list_cmd_prints_nothing(path: PV, skip: bool, only: bool, db1: FixtureDatabase, db2: FixtureDatabase, li: ListIn)
+    requires list_cmd_post(path, skip, only, db1, db2),
+        list_inputs(li, db1.defs(), db1.uses(), db1.provf(), instvs(db1.editable_install_roots@), opt_pbv(db1.workspace_root), fs_canon(abs_pv(path)), skip, only),
+    ensures db2.out() == db1.out()
+{}
+/// "list_cmd_post is unsatisfiable / the stub contract together with the assumed scanner contract is contradictory"
+proof fn canary_list_cmd_post_contradictory(path: PV, skip: bool, only: bool, db1: FixtureDatabase, db2: FixtureDatabase)
+    requires list_cmd_post(path, skip, only, db1, db2)
+    ensures false
+{}
+
+// ---- exec vacuity guards (must FAIL): the real body of handle_fixtures_list under deliberately wrong end obligations
+/*@ extract src/main.rs handle_fixtures_list
+@as canary_exec_list_prints_nothing
+@wrapexpr 1 `if path.is_absolute() { path } else { std::env::current_dir() .unwrap_or_else(|_| PathBuf::from(".")) .join(&path) }` => `vp_absolute_lc1(path)` with fn vp_absolute_lc1(path: PathBuf) -> (r: PathBuf) ensures pbv(&r) == abs_pv(pbv(&path))
+@wrapexpr 1 `absolute_path.canonicalize().unwrap_or(absolute_path)` => `vp_canonical_lc1(absolute_path)` with fn vp_canonical_lc1(absolute_path: PathBuf) -> (r: PathBuf) ensures pbv(&r) == fs_canon(pbv(&absolute_path))
 @replace 1 `eprintln!("Error: Path does not exist: {}", absolute_path.display())` => `vp_eprint_missing(&absolute_path)`
 @replace 1 `eprintln!( "Error: Path is not a directory: {}", absolute_path.display() )` => `vp_eprint_not_dir(&absolute_path)`
 @replace 1 `std::process::exit(` => `return vp_exit(Ghost(1int), Ghost(true), `
 @replace 2 `std::process::exit(` => `return vp_exit(Ghost(1int), Ghost(true), `
 @replace 1 `let fixture_db = FixtureDatabase::new();` => `let mut fixture_db = FixtureDatabase::new();`
-@replace 1 `fixture_db.print_fixtures_tree(` => `fixture_db.vp_print_tree(Ghost(fs_canon(abs_pv(g_path))), Ghost((skip_unused, only_unused)), `
 @start
-    let ghost g_path = pbv(&path);
+    let ghost mut db1: Option<FixtureDatabase> = None;
+@after scan_workspace 1
+    proof { db1 = Some(fixture_db); }
+@end
+    proof { assert(db1 is Some && fixture_db.out() == db1->0.out()); }
+@*/
+/*@ extract src/main.rs handle_fixtures_list
+@as canary_exec_list_end_unreachable
+@wrapexpr 1 `if path.is_absolute() { path } else { std::env::current_dir() .unwrap_or_else(|_| PathBuf::from(".")) .join(&path) }` => `vp_absolute_lc2(path)` with fn vp_absolute_lc2(path: PathBuf) -> (r: PathBuf) ensures pbv(&r) == abs_pv(pbv(&path))
+@wrapexpr 1 `absolute_path.canonicalize().unwrap_or(absolute_path)` => `vp_canonical_lc2(absolute_path)` with fn vp_canonical_lc2(absolute_path: PathBuf) -> (r: PathBuf) ensures pbv(&r) == fs_canon(pbv(&absolute_path))
+@replace 1 `eprintln!("Error: Path does not exist: {}", absolute_path.display())` => `vp_eprint_missing(&absolute_path)`
+@replace 1 `eprintln!( "Error: Path is not a directory: {}", absolute_path.display() )` => `vp_eprint_not_dir(&absolute_path)`
+@replace 1 `std::process::exit(` => `return vp_exit(Ghost(1int), Ghost(true), `
+@replace 2 `std::process::exit(` => `return vp_exit(Ghost(1int), Ghost(true), `
+@replace 1 `let fixture_db = FixtureDatabase::new();` => `let mut fixture_db = FixtureDatabase::new();`
+@end
+    proof { assert(false); }
 @*/
 
 // ---- exec vacuity guard (must FAIL): the real body, the final exit constrained to status 0
